@@ -400,13 +400,22 @@ def clone_contract_cases(chunk: list[dict]) -> list[tuple[str, str]]:
 _CROSSED: dict[str, int] = {}
 
 
+def _counter(prefix: str) -> int:
+    """current value of a name counter, through the public accessor"""
+    from symplyphysics.core.symbols import id_generator as G
+    try:
+        return int(G.last_id(prefix))
+    except KeyError:
+        return 0
+
+
 def _work(chunk: list[tuple]) -> dict:
     from symplyphysics.core.symbols import id_generator as G
     res: dict[str, Any] = {"n": 0, "keys": [], "outcomes": {}, "violations": [], "samples": [],
         "states": 0, "transitions": 0, "traces": 0}
     global _THREAD_MODE
     for st in chunk:
-        before = {p: G._ids.get(p, 0) for p in ("SYM", "FUN", "QTY", "SYS")}
+        before = {p: _counter(p) for p in ("SYM", "FUN", "QTY", "SYS")}
         errs = check_state(st)
         if len(st) >= 2:
             # the same history with its creations spread over threads (one at a time, no races):
@@ -425,7 +434,7 @@ def _work(chunk: list[tuple]) -> dict:
                 for e in terrs[:2]:
                     res["violations"].append((f"{canon(st)}|threads:{mode}|{e.split(':')[0][:60]}",
                         f"[creations on threads: {mode}] {e}", {"state": list(st), "threads": mode}))
-        after = {p: G._ids.get(p, 0) for p in ("SYM", "FUN", "QTY", "SYS")}
+        after = {p: _counter(p) for p in ("SYM", "FUN", "QTY", "SYS")}
         for p in before:
             if len(str(before[p])) != len(str(after[p])) or (before[p] == 0 and after[p] > 0):
                 res["outcomes"][f"crossed-digit-boundary-{p}"] = res["outcomes"].get(
@@ -450,9 +459,9 @@ def _bump_each(offset: int) -> None:
     from symplyphysics import Symbol, Function, Quantity, CoordinateSystem
     from symplyphysics.core.symbols import id_generator as G
     for prefix, mk in (("SYM", Symbol), ("FUN", Function), ("QTY", lambda: Quantity(1))):
-        while G._ids.get(prefix, 0) < offset:
+        while _counter(prefix) < offset:
             mk()
-    while G._ids.get("SYS", 0) < min(offset, 96):  # coordinate systems are slow to create
+    while _counter("SYS") < min(offset, 96):  # coordinate systems are slow to create
         CoordinateSystem()
 
 
